@@ -1,0 +1,43 @@
+//go:build verif
+
+package memview
+
+import "mltwist/pkg/model"
+
+// This file is compiled only with the verif build tag and serves the external
+// verification harness.
+
+// VerifParseAddr forwards to parseAddr.
+func VerifParseAddr(s string) (interface{}, error) { return parseAddr(s) }
+
+// VerifRow describes a single row of memory view.
+type VerifRow struct {
+	Addr   model.Addr
+	Ranges [][2]model.Addr
+}
+
+// VerifRows lists rows of the view. Rows without any range are ellipsis rows.
+func (m *mode) VerifRows() []VerifRow {
+	rows := make([]VerifRow, len(m.view.lines))
+	for i, l := range m.view.lines {
+		rows[i].Addr = l.addr
+		for _, r := range l.ranges {
+			rows[i].Ranges = append(rows[i].Ranges, [2]model.Addr{r.Begin(), r.End()})
+		}
+	}
+
+	return rows
+}
+
+// VerifCursor returns position of the cursor. The boolean is false if the view
+// has no cursor.
+func (m *mode) VerifCursor() (int, bool) {
+	if m.view.c == nil {
+		return 0, false
+	}
+
+	return m.view.c.Value(), true
+}
+
+// VerifSetCursor sets position of the cursor.
+func (m *mode) VerifSetCursor(i int) error { return m.view.c.Set(i) }
